@@ -22,6 +22,9 @@ pub enum Act {
     Yield,
     /// wake self twice (by value clone + by ref) and return pending
     WakeTwice,
+    /// wake self (by ref) and continue: if the script ends here the task completes while it is
+    /// already queued again
+    WakeSelf,
     /// wait until one of the channels in the mask (bit 0 / bit 1) is signalled
     Wait(u8),
     /// signal channel k; by_ref chooses `wake_by_ref` vs consuming `wake`
@@ -107,6 +110,10 @@ impl Model {
                     self.wake(t);
                     self.wake(t);
                     return Some(false);
+                }
+                Act::WakeSelf => {
+                    self.tasks[t].pc += 1;
+                    self.wake(t);
                 }
                 Act::Wait(mask) => {
                     if self.tasks[t].signalled & mask != 0 {
@@ -236,6 +243,10 @@ impl Future for TaskFut {
                     cx.waker().clone().wake();
                     cx.waker().wake_by_ref();
                     break Poll::Pending;
+                }
+                Act::WakeSelf => {
+                    this.pc += 1;
+                    cx.waker().wake_by_ref();
                 }
                 Act::Wait(mask) => {
                     let sig = this.shared.borrow().signalled[this.id];
@@ -466,6 +477,8 @@ fn parse_act(s: &str) -> Act {
         Act::Yield
     } else if s.starts_with("WakeTwice") {
         Act::WakeTwice
+    } else if s.starts_with("WakeSelf") {
+        Act::WakeSelf
     } else if s.starts_with("Wait") {
         Act::Wait(nums[0])
     } else if s.starts_with("Signal") {
@@ -520,6 +533,7 @@ pub fn run(tier: Tier) -> i32 {
     let full = [
         Act::Yield,
         Act::WakeTwice,
+        Act::WakeSelf,
         Act::Wait(1),
         Act::Wait(2),
         Act::Wait(3),
@@ -530,7 +544,7 @@ pub fn run(tier: Tier) -> i32 {
         Act::Spawn(0),
         Act::Spawn(1),
     ];
-    let reduced = [Act::Yield, Act::Wait(1), Act::Wait(3), Act::Signal(0, false), Act::Signal(1, true), Act::Spawn(1)];
+    let reduced = [Act::Yield, Act::WakeSelf, Act::Wait(1), Act::Wait(3), Act::Signal(0, false), Act::Signal(1, true), Act::Spawn(1)];
     let mut systems: Vec<Vec<Vec<Act>>> = vec![];
     // two tasks over the full alphabet, scripts of length <= 2
     let s2 = scripts(2, &full);
@@ -637,7 +651,7 @@ pub fn run(tier: Tier) -> i32 {
         "task_systems": systems.len(),
         "task_systems_in_which_some_task_blocked_on_a_channel": nontrivial_systems.load(Relaxed),
         "driver_depth": depth,
-        "explanation": "for every task system (2 tasks x scripts <=2 over 11 actions; 3 tasks over 6 actions; thorough: 2 tasks x scripts <=3) BFS over driver choices {step, run_until_stalled, signal channel 0/1 from outside, spawn} to the depth bound with dedup on the reference model's state; every history is replayed on a fresh real Executor with instrumented futures; compared after every driver op: poll log, wake_count vs model queue, return values, receivers (value exactly once, right after completion), no poll after Ready, no re-entrant poll, at stall every unfinished task is registered on an unsignalled channel, every future dropped exactly once at tear-down",
+        "explanation": "for every task system (2 tasks x scripts <=2 over 12 actions; 3 tasks over 7 actions; thorough: 2 tasks x scripts <=3) BFS over driver choices {step, run_until_stalled, signal channel 0/1 from outside, spawn} to the depth bound with dedup on the reference model's state; every history is replayed on a fresh real Executor with instrumented futures; compared after every driver op: poll log, wake_count vs model queue, return values, receivers (value exactly once, right after completion), no poll after Ready, no re-entrant poll, at stall every unfinished task is registered on an unsignalled channel, every future dropped exactly once at tear-down",
     });
     ctx.finish(cov, &["FIFO reference model (queue + waiting lists) trusted", "a stale wake-up of a finished task is modelled as a queue entry that is popped without a poll (as implemented and consistent with the property)"])
 }
